@@ -125,6 +125,51 @@ fn run(read_chunk: Option<usize>, uneven_frames: bool) {
     connection.close().unwrap_or_else(|e| panic!("{}: close: {}", what, e));
 }
 
+// frames larger than 64 KiB (the input buffer grows), then small messages; the stream reaches the client in pieces that end 1, 3 or 6 bytes
+// into the header of the frame following each message (the read behind each piece would block)
+fn run_big_then_small(extra: usize) {
+    let what = format!("big frames then small ones, pieces end {} bytes into the next frame header", extra);
+    let ctl = Handle::new();
+    (ctl.0).0.lock().unwrap().tune = Some(connection_::Tune { channel_max: 16, frame_max: 131_072, heartbeat: 0 });
+    let mut connection = Connection::insecure_open_stream(LiveBroker::new(ctl.clone()), ConnectionOptions::<Auth>::default().heartbeat(0), ConnectionTuning::default()).expect("handshake");
+    let ch1 = connection.open_channel(Some(1)).unwrap();
+    let c1 = ch1.basic_consume("q1", ConsumerOptions::default()).unwrap();
+    let tag1 = c1.consumer_tag().to_string();
+    let sizes = [100_000usize, 10, 0, 70_000, 3, 1, 90_001, 12];
+    let mut pieces: Vec<Vec<u8>> = vec![Vec::new()];
+    for (k, &len) in sizes.iter().enumerate() {
+        let mut m = method_bytes(1, B::Deliver(basic::Deliver { consumer_tag: tag1.clone(), delivery_tag: 1 + k as u64, redelivered: false, exchange: "ex".to_string(), routing_key: format!("k{}", k) }));
+        m.extend(content(1, &body_of(len, k as u8), &props(k as u8), &[131_064]));
+        // the first `extra` bytes of this message travel with the previous piece
+        let cut = if k == 0 { 0 } else { extra };
+        pieces.last_mut().unwrap().extend_from_slice(&m[..cut]);
+        pieces.push(m[cut..].to_vec());
+    }
+    for piece in pieces {
+        if !piece.is_empty() {
+            ctl.inject(piece);
+            std::thread::sleep(Duration::from_millis(25));
+        }
+    }
+    for (k, &len) in sizes.iter().enumerate() {
+        match c1.receiver().recv_timeout(T) {
+            Ok(ConsumerMessage::Delivery(d)) => check_delivery(&format!("{}: message {}", what, k), &d, 1 + k as u64, false, &format!("k{}", k), &body_of(len, k as u8), &props(k as u8)),
+            other => panic!("{}: message {}: {:?}", what, k, other),
+        }
+    }
+    assert!(ch1.queue_purge("q").is_ok(), "{}: the channel is unusable afterwards", what);
+    std::mem::forget(c1);
+    std::mem::forget(ch1);
+    connection.close().unwrap_or_else(|e| panic!("{}: close: {}", what, e));
+}
+
+#[test]
+fn verif_sweep_c03_c06_big_frames_then_small_ones() {
+    for &extra in &[1usize, 3, 6] {
+        run_big_then_small(extra);
+    }
+}
+
 #[test]
 fn verif_sweep_c03_c06_inbound_content_under_every_segmentation() {
     let mut count = 0;
